@@ -276,6 +276,36 @@ def run(ctx):
         big.append(wrap(bytes(n)))
     for kind in ENTRY:
         jobs.append((kind, many_op(kind, big, False), "64KiB", False))
+    # valid multi-chunk containers (payloads of 16 KiB .. 100 KiB, noisy and compressible), cut and bent at and around the
+    # 16 KiB boundaries of the compressed stream and of the payload
+    multi = []
+    for n in (16383, 16384, 16385, 32768, 49152, 100000):
+        for fill in (bytes(n), ctx.rng.randbytes(n), bytes((i * 7) & 255 for i in range(n))):
+            c = wrap(fill)
+            multi.append(c)
+            cuts = {len(c) - 1, len(c) - 4, len(c) // 2, 5, 6}
+            for b in range(16384, len(c) + 2, 16384):
+                cuts.update({b - 1, b, b + 1, b + 4, b + 5})
+            for k in sorted(x for x in cuts if 4 < x < len(c)):
+                multi.append(c[:k])
+            for d in (-1, 1, 16384, -16384):
+                if n + d >= 0:
+                    multi.append(struct.pack(">i", n + d) + c[4:])
+            flip = bytearray(c)
+            flip[len(c) // 2] ^= 0x40
+            multi.append(bytes(flip))
+    ctx.extra["multi_chunk_inputs"] = len(multi)
+    for kind in ENTRY:
+        if kind == "zlib" or COMPRESSED[kind]:
+            jobs.append((kind, many_op(kind, multi, False), "multi-chunk", True))
+    # structurally valid big blobs of the free-length codecs, truncated the same way
+    for kind, payload in (("v1_high_res", p64(6000) + p64(6000) + bytes.fromhex(dbits(512.0)) + ctx.rng.randbytes(6 * 6000) + bytes(6)),
+                          ("v2_overview", p64(20000) + p64(20000) + bytes.fromhex(dbits(512.0)) + ctx.rng.randbytes(3 * 20000) + bytes(3)),
+                          ("v1_overview", p64(9000) + p64(9000) + bytes.fromhex(dbits(512.0)) + ctx.rng.randbytes(3 * 9000) + bytes(3))):
+        c = wrap(payload)
+        cuts = [c[:k] for k in sorted({len(c) - 1, len(c) - 7, 16383, 16384, 16385, 16388, 32768, 32769, len(c) // 3} ) if 4 < k < len(c)]
+        pcuts = [wrap(payload[:k]) for k in (16384, 16383, 16385, len(payload) - 1, len(payload) - 6, 24, 25)]
+        jobs.append((kind, many_op(kind, [c] + cuts + pcuts, False), "multi-chunk-structured", True))
     ctx.sample({"entry": "v2_quick_cues", "family": "count-ladder", "payload_hex": count_ladder_payloads("v2_quick_cues", ctx.rng)[3].hex()})
     ctx.sample({"entry": "zlib", "family": "length-prefix-ladder", "input_hex": prefix_ladder_blobs([b"abc"])[0].hex()})
     ctx.sample({"entry": "v1_loops", "family": "exhaustive-raw", "op": {"len": 2, "alphabet": "all 256 values"}})
